@@ -12,7 +12,7 @@ for pid in ids:
     if pid in registry.PROPS and pid in T.CLAIMS and pid in T.READY:
         c = T.CLAIMS[pid]
         p = registry.PROPS[pid]
-        nq = len([j for j in p.jobs if j.tier == "q"])
+        nq = len([j for j in p.jobs if j.tier == "q"]); nall = len([j for j in p.jobs if j.tier != "x"])
         checks.append({
             "property_id": pid,
             "quick_cmd": "python3 tools/check.py %s --tier quick" % pid,
@@ -21,7 +21,7 @@ for pid in ids:
             "replay_cmd_template": "python3 tools/check.py --replay {path}",
             "engine": "kani-cbmc",
             "level_claimed": {"category": "model_checking", "text": c["text"], "design_ref": c.get("design_ref", "DESIGN.md section 4 " + pid)},
-            "level_note": c["note"] + " Bounds: " + p.bounds + ". Outside the claim: " + p.outside + " (%d harnesses quick, %d thorough)." % (nq, len(p.jobs)),
+            "level_note": c["note"] + " Bounds: " + p.bounds + ". Outside the claim: " + p.outside + " (%d harnesses quick, %d thorough)." % (nq, nall),
             "technique": c.get("technique", "bounded symbolic execution of the compiled Rust code (Kani 0.68 -> CBMC 6.11, CaDiCaL): inputs are symbolic variables, the property is an assertion against an independent reference, SAT decides all values within the bound; counterexamples replayed natively"),
         })
     else:
